@@ -22,7 +22,8 @@
 #    value at process start and is re-seeded from the run's seed before every
 #    run (runtime.verifSetMapSeed, reached through go:linkname from
 #    cmd/simworld): orders still vary from seed to seed, but one seed is one
-#    order.
+#    order. The same generator decides which of several ready cases a select
+#    statement takes.
 set -u
 VERIF="$(cd "$(dirname "$0")" && pwd)"
 fail2() { echo "mkoverlay.sh: $*" >&2; exit 2; }
@@ -80,18 +81,21 @@ for f in map_fast32.go map_fast64.go map_faststr.go; do
 done
 [ "$(grep -c 'bootstrapRand()' "$RT/alg.go")" = "2" ] || fail2 "runtime/alg.go of this toolchain has an unexpected shape"
 sed 's/bootstrapRand()/verifMapRand()/' "$RT/alg.go" > "$TMP/alg.go"
+# select: the order in which ready cases are polled
+[ "$(grep -c 'cheaprandn(uint32(norder + 1))' "$RT/select.go")" = "1" ] || fail2 "runtime/select.go of this toolchain has an unexpected shape"
+sed 's/cheaprandn(uint32(norder + 1))/uint32(verifMapRand() % uint64(norder+1))/' "$RT/select.go" > "$TMP/select.go"
 
 {
   printf '{"Replace": {\n'
   printf ' "%s": "%s",\n' "$POOL" "$OUT/pool.go"
-  for f in map.go map_fast32.go map_fast64.go map_faststr.go; do printf ' "%s": "%s",\n' "$RT/$f" "$OUT/$f"; done
+  for f in map.go map_fast32.go map_fast64.go map_faststr.go select.go; do printf ' "%s": "%s",\n' "$RT/$f" "$OUT/$f"; done
   printf ' "%s": "%s"\n}}\n' "$RT/alg.go" "$OUT/alg.go"
 } > "$TMP/overlay.json"
 
 # install: the content is a pure function of the toolchain, so concurrent
 # writers produce identical files; each file is moved into place atomically
 mkdir -p "$OUT"
-for f in pool.go map.go map_fast32.go map_fast64.go map_faststr.go alg.go overlay.json; do
+for f in pool.go map.go map_fast32.go map_fast64.go map_faststr.go select.go alg.go overlay.json; do
   mv -f "$TMP/$f" "$OUT/$f" || fail2 "cannot install $f"
 done
 echo "$OUT/overlay.json"
